@@ -356,6 +356,14 @@ impl Ctx {
             };
             match self.tolerate_known(verdict) {
                 Ok(()) => Ok(()),
+                Err(viol) if viol.signature.starts_with("harness:") => {
+                    // the harness could not decide this case (time-out waiting for the node, node
+                    // failed to start, ...): inconclusive, never a violation
+                    self.inconclusive
+                        .borrow_mut()
+                        .push(format!("{sub}: {}: {}", viol.signature, viol.detail));
+                    Ok(())
+                }
                 Err(viol) => {
                     // counters stop at the first failure: shrinking re-runs are not cases
                     self.stats.borrow_mut().freeze();
@@ -369,10 +377,26 @@ impl Ctx {
             Ok(()) => true,
             Err(TestError::Fail(_, value)) => {
                 // recompute the violation of the shrunk case
+                install_panic_recorder();
                 let viol = {
                     let mut st = self.stats.borrow_mut();
                     st.freeze();
-                    prop(&value, &mut st)
+                    let r = std::panic::catch_unwind(std::panic::AssertUnwindSafe(|| prop(&value, &mut st)));
+                    match r {
+                        Ok(v) => v,
+                        Err(_) => {
+                            // code called synchronously from the check panicked
+                            let p = PANICS
+                                .lock()
+                                .ok()
+                                .and_then(|g| g.iter().rev().find(|p| p.thread == "main").cloned());
+                            let (loc, msg) = p.map(|p| (p.location, p.message)).unwrap_or_default();
+                            Err(Violation::new(
+                                format!("panic:check-thread@{loc}"),
+                                format!("code called synchronously by the check panicked at {loc}: {msg}"),
+                            ))
+                        }
+                    }
                 };
                 let viol = match viol {
                     Err(v) => v,
@@ -506,4 +530,76 @@ pub fn scratch(prefix: &str) -> tempfile::TempDir {
         .tempdir_in(&base)
         .or_else(|_| tempfile::Builder::new().prefix(prefix).tempdir())
         .expect("scratch dir")
+}
+
+/// Panics of threads other than the check's own (i.e. threads of the node under test) are
+/// recorded by a process-wide hook so that checks can report them as violations of "the node
+/// never crashes" with the panic location as signature.
+#[derive(Clone, Debug)]
+pub struct RecordedPanic {
+    pub thread: String,
+    pub location: String,
+    pub message: String,
+}
+
+static PANICS: std::sync::Mutex<Vec<RecordedPanic>> = std::sync::Mutex::new(Vec::new());
+
+pub fn install_panic_recorder() {
+    static ONCE: std::sync::Once = std::sync::Once::new();
+    ONCE.call_once(|| {
+        let prev = std::panic::take_hook();
+        std::panic::set_hook(Box::new(move |info| {
+            let thread = std::thread::current().name().unwrap_or("?").to_string();
+            let location = info
+                .location()
+                .map(|l| {
+                    let f = l.file();
+                    let f = f.rsplit_once("/repo/").map(|x| x.1).unwrap_or(f);
+                    format!("{}:{}", f, l.line())
+                })
+                .unwrap_or_default();
+            let message = if let Some(s) = info.payload().downcast_ref::<&str>() {
+                s.to_string()
+            } else if let Some(s) = info.payload().downcast_ref::<String>() {
+                s.clone()
+            } else {
+                String::new()
+            };
+            if let Ok(mut g) = PANICS.lock() {
+                g.push(RecordedPanic {
+                    thread,
+                    location,
+                    message,
+                });
+            }
+            prev(info);
+        }));
+    });
+}
+
+/// panics recorded so far on threads whose name is not `main` (the check's own thread)
+pub fn node_panics() -> Vec<RecordedPanic> {
+    PANICS
+        .lock()
+        .map(|g| g.iter().filter(|p| p.thread != "main").cloned().collect())
+        .unwrap_or_default()
+}
+
+pub fn clear_panics() {
+    if let Ok(mut g) = PANICS.lock() {
+        g.clear();
+    }
+}
+
+pub fn node_panic_violation() -> Verdict {
+    let ps = node_panics();
+    if let Some(p) = ps.first() {
+        // thread names of the runtime carry a counter: normalise
+        let t = if p.thread.starts_with("GlobalRt") { "GlobalRt".to_string() } else { p.thread.clone() };
+        return Err(Violation::new(
+            format!("node:thread-panicked:{}@{}", t, p.location),
+            format!("thread '{}' of the node panicked at {}: {}", p.thread, p.location, p.message),
+        ));
+    }
+    Ok(())
 }
